@@ -583,6 +583,23 @@ fn fam_num(rng: &mut Rng, n: usize, out: &mut Out) {
     consts!(i16, 16, 14);
     consts!(i32, 32, 30);
     consts!(i64, 64, 62);
+    // quantize(f64) for the four fixed-point types: exactly representable values, ties, the 2^52..2^53 binade
+    for i in 0..(n / 4).max(64) {
+        let v: f64 = match i % 5 {
+            0 => ((1u64 << 52) + rng.below(1 << 52)) as f64 / 4611686018427387904.0 * if rng.chance(1, 2) { -1.0 } else { 1.0 },
+            1 => (rng.range(-(1 << 20), 1 << 20) as f64 + 0.5) / 16384.0,
+            2 => (rng.next() as i64 as f64) / 9.3e18 * 1.99,
+            3 => rng.range(-32768, 32767) as f64 / 16384.0,
+            _ => (rng.next() as i64 as f64) / 4611686018427387904.0,
+        };
+        let b = v.to_bits();
+        match i % 4 {
+            0 => out.emit(&format!("f_quantize 8 6 {}", b), Some(<i8 as Coefficient>::quantize(v).to_string())),
+            1 => out.emit(&format!("f_quantize 16 14 {}", b), Some(<i16 as Coefficient>::quantize(v).to_string())),
+            2 => out.emit(&format!("f_quantize 32 30 {}", b), Some(<i32 as Coefficient>::quantize(v).to_string())),
+            _ => out.emit(&format!("f_quantize 64 62 {}", b), Some(<i64 as Coefficient>::quantize(v).to_string())),
+        }
+    }
     for i in 0..n {
         match i % 4 {
             0 => num_one!(i8, i16, 8, 6, rng, out),
